@@ -4,6 +4,18 @@ import json, sys
 
 CHECKS = {
  # id: (technique, level text, level_note, design_ref)
+ "C06": ("exhaustive enumeration of (colour, alpha) pairs x lane layouts x back-ends x entry points on the real kernels, exact-integer oracle",
+         "All 65536 8-bit pairs in 132 row layouts, 16-bit alpha rows x all 65536 colours (all 2^32 pairs in the thorough tier), boundary pairs at every width/offset, and a float alphabet are executed on every back-end and entry point and compared with exact integer / IEEE arithmetic; the per-pixel function has a finite domain, so enumeration decides it.",
+         "Quick tier covers 16-bit pairs with alpha or colour in a 432-value boundary set; floats only on the listed alphabet.",
+         "DESIGN.md §4 C06"),
+ "C16": ("exhaustive enumeration of all table inputs x depth pairs x component positions x containers on the real mappers, f64 transfer-function oracle",
+         "Every one of the 256/65536 inputs of every table (2 mappers x 2 directions x 4 depth pairs) is pushed through the real forward/backward map at every component position, row width and container kind; monotonicity, endpoints, the sRGB round trip and alpha pass-through are checked on the complete domain.",
+         "Tolerance 0.5 + max_out*2^-19 against the f64 transfer function (tables are built in f32).",
+         "DESIGN.md §4 C16"),
+ "C17": ("exhaustive enumeration of the integer source domains (dense boundary alphabets for i32/f32) over all 43 supported and all unsupported type pairs on the real conversion",
+         "All 256/65536 integer values and a dense boundary alphabet of i32/f32 values are converted through the real dynamic entry point for every type pair; monotonicity, endpoints, saturation, round trips and the accept/reject matrix are judged on the whole enumerated domain.",
+         "i32/f32 sources are not enumerated completely (2^32 values): power-of-two neighbourhoods, a stride sweep and per-binade grids are the stated alphabet.",
+         "DESIGN.md §4 C17"),
  "C15": ("bounded-exhaustive enumeration of the real function over all size quadruples up to a bound x centering alphabet, judged by an f64 oracle",
          "Every (src,dst) size quadruple up to the bound, a boundary alphabet up to 65535 and the full centering alphabet are executed on the real CropBox::fit_src_into_dst_size and through Resizer::resize; a pure function of five scalars is decided by enumeration of its (bounded) domain.",
          "Sizes above the bound only through the 14-value boundary alphabet; tolerances 4 ulp (aspect) / 2 ulp (centering).",
